@@ -520,7 +520,7 @@ def stream_safe_divide(run):
             for den in grid:
                 for npy in (False, True):
                     items.append((num, den, mn, npy))
-    for _ in range(run.n(600, 20000)):
+    for _ in range(run.n(400, 20000)):
         mn = rng.choice([Fr(1, 1024), Fr(MN), Fr(MN), Fr(1, 8), Fr(0)])
         sc = rng.choice([Fr(1, 4096), Fr(1, 256), Fr(1), Fr(64)])
         items.append((rng.randint(-4096, 4096) * sc, rng.choice([0, 1, 1, 1]) * rng.randint(-4096, 4096) * sc, mn,
@@ -1092,6 +1092,8 @@ def hourly_fit_job(args):
     df = fitlib.hourly_frame(rng, ndays=ndays, noise=rng.choice([0.05, 0.3, 1.5]), scale=scale, ghi=(variant == "ghi"))
     if variant == "netmeter":
         df["observed"] = df["observed"] - df["observed"].mean() * rng.choice([0.9, 1.0, 1.3])
+    if variant == "noisy":
+        df["observed"] = df["observed"] * np.random.default_rng(seed).lognormal(0, 2.0, len(df))
     n = len(df)
     for _ in range(rng.choice([3, 12, 40])):
         i = rng.randrange(24, n - 30)
@@ -1169,7 +1171,7 @@ def daily_fit_job(args):
 
 def start_fits(run, hjobs=None, djobs=None):
     """submit the real fits to the worker pool; they run while the other streams are processed"""
-    hv = ["plain", "netmeter", "ghi", "plain"]
+    hv = ["plain", "netmeter", "noisy", "ghi"]
     dv = ["plain", "netmeter", "noisy"]
     if hjobs is None:
         hjobs = [(run.rng.randrange(10**9), hv[i % len(hv)]) for i in range(run.n(3, 40))]
@@ -1296,10 +1298,10 @@ def main():
     daily_data_object(True)
     rng = run.rng
 
-    def series(n):
+    def series(n, kind_index=lambda k: k):
         out = []
         for k in range(n):
-            c = gen_series(rng, k)
+            c = gen_series(rng, kind_index(k))
             c["seed"] = rng.randrange(2 ** 62)
             out.append(c)
         return out
@@ -1309,20 +1311,21 @@ def main():
             total -= size
     handles = start_fits(run) if run.quick() else None
     first = True
-    for b in batches(cnt(run, 1300, 24000)):
+    for b in batches(cnt(run, 1000, 24000)):
         stream_baseline(run, (list(corpus.get("baseline", [])) if first else []) + series(b))
         first = False
     phase(run, "baseline + gate done")
     first = True
-    for b in batches(cnt(run, 220, 3000)):
+    for b in batches(cnt(run, 160, 3000)):
         stream_hourly_stub(run, (list(corpus.get("hourly_stub", [])) if first else []) + series(b))
         first = False
     phase(run, "hourly stub done")
-    for b in batches(cnt(run, 220, 3000)):
+    for b in batches(cnt(run, 160, 3000)):
         stream_daily_stub(run, [gen_daily(rng, k) for k in range(b)])
     phase(run, "daily stub done")
-    for b in batches(cnt(run, 200, 3000)):
-        stream_reporting(run, series(b))
+    for b in batches(cnt(run, 150, 3000)):
+        # mostly ordinary baselines here (the uncertainty needs a defined cvrmse_autocorr_adj and n' > 0)
+        stream_reporting(run, series(b, lambda k: rng.choice([0, 1, 2, 0, 1, 2, 6, 8, 100])))
     phase(run, "reporting done")
     stream_fits(run, handles=handles)
     phase(run, "fits done")
